@@ -15,6 +15,15 @@ CLAIMS = {
         "theorems for every real quaternion/rotation/vector. The numba kernels and the dask einsum tables are translated "
         "from the Python AST on every run and proved equal to the model by `ring`; the numpy-quaternion/dask/class-plumbing "
         "paths, outer-product indexing and alignment are tied by the correspondence check (exact on integer inputs)."),
+ "C03": dict(category="proof", design_ref="DESIGN.md section 5 C03",
+   technique="Lean 4: tables regenerated from the live objects, Boolean checkers with proved soundness decided by the kernel (decide +kernel) over the complete finite domain",
+   text="Finite and complete. On every run the 38 point-group objects (every operation as an integer matrix in lattice "
+        "coordinates, Laue group, proper subgroup, subgroup lists, query flags) and the 230 space groups (diffpy rotation "
+        "parts, point group orix assigns) are regenerated from /repo into Lean; the kernel decides group axioms, order, "
+        "Laue/proper-subgroup/query clauses, all 38x38 subgroup pairs, equality with an independent Hermann-Mauguin "
+        "reference table, and the space-group clause for all 230 numbers; soundness lemmas lift the runs to the declarative "
+        "theorems. The known deviations (mm2 setting; 50 space groups) are proved to be deviations, not hidden. The same "
+        "clauses are evaluated numerically on the implementation in the Cartesian frame as the failing-input search."),
 }
 REASONS = {}
 checks = []
